@@ -745,7 +745,9 @@ class TaskScenario(ScenarioData):
             effort_before = self.doneEffort
             self.bookResources()
 
-            if self.doneEffort >= effort:
+            # Efforts are sums of binary floating point numbers: 3 x 0.7 h is 2.0999999999999996 h.
+            # Without a tolerance such a task books one more slot than its effort asks for.
+            if self.doneEffort >= effort - 1e-9:
                 # Finished - calculate precise end time within the final slot
                 # and release unused time for other tasks
                 end_date, _seconds_used = self._calculatePreciseEndTimeAndRelease(effort, effort_before, forward)
